@@ -5,11 +5,14 @@
 import json, os, random, re, subprocess
 import vlib
 import lifecycle_common as lc
+import repotests_part
 
 LEVEL = "model_checking"
 
 
 def run(ctx):
+    # the repository's own integration tests run beside everything else (they mostly wait); their traces are validated at the end
+    rt = repotests_part.start(ctx, run_regex="TestRetry$|TestCommon$|TestXRetry$|TestRetryProxy$|TestXRetryProxy$|TestProxy$" if ctx.quick() else None, timeout=240 if ctx.quick() else 1200)
     lc.model_checks(ctx)
     lc.impl_model_checks(ctx)
     cases = lc.scenario_cases(ctx, "Scenarios", "Scenarios.cfg")
@@ -40,6 +43,7 @@ def run(ctx):
     traces, results = traces + t2 + t3 + t4, results + r2 + r3 + r4
     lc.validate(ctx, "C03", traces, results, kinds_for_property=None, sigfn=lc.lifecycle_sig,
                 ignore_kinds=lc.RESOURCE_KINDS[:3])   # the clusters' breaker books at quiesce are C10's to judge
+    repotests_part.finish(ctx, rt, "C03")
     ctx.cov["exhaustive"] = not q
     ctx.cov["rule"] = ("one case = (cluster shape, per-arrival upstream script, per-try timeout on/off, gate point held, event forced "
                        "to happen meanwhile) from Scenarios.tla (%d feasible cases); each realised once on the in-process MOSN over "
